@@ -5,6 +5,7 @@
 (c) the packaged reference solutions (flowdyn.solution) agree with the oracle's exact solver / with the nozzle-flow invariants.
 """
 import math
+from fractions import Fraction
 import os
 
 import numpy as np
@@ -59,7 +60,12 @@ def _conv_error(case, n):
     a, L, x0 = case["a"], case["length"], case["x0"]
     md = dict(name="convection", a=a)
     model = cases.build_model(md)
-    mesh = cases.build_mesh(dict(kind="uni", n=n, length=L, x0=x0))
+    if case.get("refined"):
+        r, za, zb = case["refined"]
+        mesh = cases.build_mesh(dict(kind="refined", n=n, length=L, ratio=r, a=za, b=zb))
+        x0 = 0.0
+    else:
+        mesh = cases.build_mesh(dict(kind="uni", n=n, length=L, x0=x0))
     xf = np.asarray(mesh.xf, dtype=float)
     disc = cases.build_disc(model, mesh, case["num"], None, {"type": "per"}, {"type": "per"})
     q0 = _cellavg_sin(xf, case["k"], L, case["phase"], 0.0)
@@ -76,6 +82,43 @@ def _conv_error(case, n):
     exact = _cellavg_sin(xf, case["k"], L, case["phase"], a * T)
     dx = xf[1:] - xf[:-1]
     return float(np.sum(dx * np.abs(np.asarray(res[0].data[0]) - exact)) / L), integ
+
+
+def strat_conv_refined(tier):
+    """the same study on two-zone (refined) meshes, incl. cell counts that do not split into whole zone counts: design order 1 (extrapol1) and 2 (all others)"""
+    num = st.one_of(st.sampled_from([dict(name="extrapol1"), dict(name="extrapol2"), dict(name="extrapol3"), dict(name="fromm"), dict(name="quick")]),
+                    st.builds(lambda k: dict(name="extrapolk", k=k), gen.f(-1, 0.6)))
+    zones = st.sampled_from([[1, 1], [1, 2], [2, 1], [1, 3], [3, 2]])
+    return st.builds(lambda sg, ea, L, ph, T, nm, integ, r, z, b: dict(a=sg * 10 ** ea, length=L, k=1, phase=ph, T=T, num=nm, integ=integ, x0=0.0, refined=[r, z[0], z[1]], base=b),
+                     st.sampled_from([1.0, -1.0]), gen.f(-0.5, 0.5), gen.logf(-1, 1), gen.f(0, 1), gen.f(0.3, 1.0), num, st.sampled_from(["rk3ssp", "rk4"]),
+                     st.one_of(st.sampled_from([0.5, 2.0, 3.0]), gen.logf(-0.5, 0.5)), zones, st.sampled_from([40, 50, 64]))
+
+
+def check_conv_refined(case):
+    num = case["num"]
+    p = 1 if num["name"] == "extrapol1" else 2
+    ns = [case["base"], 2 * case["base"], 4 * case["base"]]
+    errs = []
+    for n in ns:
+        e, integ = _conv_error(case, n)
+        require(np.isfinite(e), "convection-finite", "non-finite error on a refined mesh of %d cells (%s, %s)" % (n, num, integ))
+        errs.append(e)
+    if errs[2] < 1e-12:
+        return dict(nontrivial=False, labels=["error-at-roundoff"])
+    o1 = math.log(errs[0] / errs[1], 2)
+    o2 = math.log(errs[1] / errs[2], 2)
+    target(-o2, "minus-order-refined:" + num["name"])
+    target(-o1, "minus-order-refined-coarse:" + num["name"])
+    if not CALIB:
+        floor = FLOOR_REFINED[p]
+        require(o2 >= floor, "order-refined-mesh", "%s on a two-zone mesh (ratio %.3g, zones %d:%d, a=%.3g, %s): observed L1 order %.3f on %d->%d cells, floor %.2f for design order %d (errors %r)"
+                % (num, case["refined"][0], case["refined"][1], case["refined"][2], case["a"], case["integ"], o2, ns[1], ns[2], floor, p, errs))
+        require(errs[1] <= 1.05 * errs[0] and errs[2] <= 1.05 * errs[1], "refined-monotone", "%s on a two-zone mesh: the L1 error does not decrease under refinement: %r" % (num, errs))
+    frac = (Fraction(case["refined"][1]) * ns[0] / (case["refined"][1] + case["refined"][2])).denominator != 1
+    return dict(nontrivial=True, labels=["num:" + num["name"], "a>0" if case["a"] > 0 else "a<0", "fractional-zone-split" if frac else "whole-zone-split"])
+
+
+FLOOR_REFINED = {1: 0.6, 2: 1.7}      # calibrated over 960 cases: observed minima 0.75 (extrapol1), 1.93 (extrapol2, extrapolk), 1.99 (fromm), 2.01 (quick), 2.91 (extrapol3)
 
 
 def check_conv(case):
@@ -377,6 +420,7 @@ def match_d17(case, failure):
 
 SUBCHECKS = [
     SubCheck("convection_order", check_conv, strategy=strat_conv, examples={"quick": 24, "thorough": 150}, shards={"quick": 8, "thorough": 16}),
+    SubCheck("convection_order_refined", check_conv_refined, strategy=strat_conv_refined, examples={"quick": 8, "thorough": 60}, shards={"quick": 6, "thorough": 16}),
     SubCheck("riemann_convergence", check_riemann, strategy=strat_riemann, examples={"quick": 12, "thorough": 80}, shards={"quick": 8, "thorough": 16}),
     SubCheck("packaged_riemann", check_packaged, strategy=strat_packaged, examples={"quick": 100, "thorough": 600}, shards={"quick": 2, "thorough": 8}),
     SubCheck("packaged_nozzle", check_nozzle, strategy=strat_nozzle, examples={"quick": 150, "thorough": 600}, shards={"quick": 2, "thorough": 8}),
